@@ -30,7 +30,8 @@ func c16Derive(db *gorm.DB, kind int) *gorm.DB {
 }
 
 type c16Shape struct {
-	create bool // FirstOrCreate (else FirstOrInit)
+	variant int  // 0: Attrs(age) + Assign(score); 1: Attrs and Assign name the same column; 2: Assign only
+	create  bool // FirstOrCreate (else FirstOrInit)
 	pos    int  // where the derivation is inserted: 0 after Where, 1 after Attrs, 2 after Assign
 	kind   int  // derivation kind (0 = none)
 	form   int  // 0 struct forms, 1 map forms, 2 key-value forms
@@ -39,6 +40,11 @@ type c16Shape struct {
 func c16Shapes(tier int) []c16Shape {
 	var r []c16Shape
 	for _, cr := range []bool{false, true} {
+		for variant := 1; variant <= 2; variant++ {
+			for form := 0; form <= 2; form++ {
+				r = append(r, c16Shape{create: cr, form: form, variant: variant}, c16Shape{create: cr, form: form, variant: variant, pos: 2, kind: 1}, c16Shape{create: cr, form: form, variant: variant, pos: 2, kind: 2})
+			}
+		}
 		for form := 0; form <= 2; form++ {
 			r = append(r, c16Shape{create: cr, form: form})
 			for pos := 0; pos <= 2; pos++ {
@@ -61,6 +67,7 @@ func H_C16_FirstOr(shape int) {
 	if shape < len(c16Shapes(0)) {
 		sh = c16Shapes(0)[shape]
 	}
+	verifrt.Tag("v" + string([]byte{byte('0' + sh.variant)}))
 	verifrt.Tag(map[bool]string{false: "FirstOrInit", true: "FirstOrCreate"}[sh.create] + ".pos" + string([]byte{byte('0' + sh.pos)}) + ".kind" + string([]byte{byte('0' + sh.kind)}) + ".form" + string([]byte{byte('0' + sh.form)}))
 	a, b := verifrt.Int("attr_age"), verifrt.Int64("assign_score")
 	found := verifrt.Bool("found")
@@ -82,13 +89,23 @@ func H_C16_FirstOr(shape int) {
 	if sh.kind != 0 && sh.pos == 0 {
 		chain = c16Derive(chain, sh.kind)
 	}
-	switch sh.form {
-	case 0:
-		chain = chain.Attrs(Item{Age: a})
-	case 1:
-		chain = chain.Attrs(map[string]interface{}{"age": a})
-	case 2:
-		chain = chain.Attrs("age", a)
+	attrCol := "age"
+	if sh.variant == 1 {
+		attrCol = "score" // the same column as Assign: Assign wins
+	}
+	if sh.variant != 2 {
+		switch sh.form {
+		case 0:
+			if sh.variant == 1 {
+				chain = chain.Attrs(Item{Score: int64(a)})
+			} else {
+				chain = chain.Attrs(Item{Age: a})
+			}
+		case 1:
+			chain = chain.Attrs(map[string]interface{}{attrCol: a})
+		case 2:
+			chain = chain.Attrs(attrCol, a)
+		}
 	}
 	if sh.kind != 0 && sh.pos == 1 {
 		chain = c16Derive(chain, sh.kind)
@@ -127,7 +144,7 @@ func H_C16_FirstOr(shape int) {
 	}
 	verifrt.Assert(res.Error == nil, "C16.error")
 	// struct / key-value forms with zero values carry no information
-	aEff := a != 0 || sh.form != 0
+	aEff := (a != 0 || sh.form != 0) && sh.variant == 0
 	bEff := b != 0 || sh.form != 0
 	if found {
 		// the first match, unchanged, with Assign applied
@@ -270,11 +287,25 @@ func H_C16_OnConflict(shape int) {
 
 // ---- Save: full value stored whether or not the key exists; twice equals once
 
-func N_C16_Save(tier int) int { return 3 }
+func N_C16_Save(tier int) int { return 4 }
 
 func H_C16_Save(shape int) {
-	mode := []string{"new", "existing", "missing-row"}[shape]
+	mode := []string{"new", "existing", "missing-row", "composite-partial-key"}[shape]
 	verifrt.Tag("save-" + mode)
+	if mode == "composite-partial-key" {
+		// a record whose composite key is only partly set has no row yet: it is inserted,
+		// never used as the condition of an UPDATE
+		s := NewStore()
+		db := openReal(stubDialector{}, s, nil)
+		d, r := verifrt.Intn("doc", 0, 3), verifrt.Intn("rev", 0, 3)
+		verifrt.Assume(verifrt.Or(d == 0, r == 0))
+		res := db.Save(&Folder{Doc: d, Rev: r, Name: "f"})
+		verifrt.Assert(res.Error == nil, "C16.save-error")
+		first, ok := firstStatement(s)
+		verifrt.Assert(ok && hasPrefix(first.Text, "INSERT INTO `folders`"), "C16.save-partial-key-not-insert")
+		verifrt.Assert(s.Count("EXEC") == 1, "C16.save-partial-key-statements")
+		return
+	}
 	s := NewStore()
 	affected := int64(1)
 	if mode == "missing-row" {
